@@ -14,6 +14,7 @@ import (
 
 	cc "gitlab.com/gomidi/midi/v2/internal/verifh/conccases"
 	cp "gitlab.com/gomidi/midi/v2/internal/verifh/concpairs"
+	"gitlab.com/gomidi/midi/v2/internal/verifh/disturb"
 	"gitlab.com/gomidi/midi/v2/internal/verifh/engine"
 	"gitlab.com/gomidi/midi/v2/internal/verifh/refsmf"
 	sp "gitlab.com/gomidi/midi/v2/internal/verifh/smfspace"
@@ -150,6 +151,7 @@ func plans() []sp.Plan {
 
 func main() {
 	ctx = engine.Start("C01", "model_checking")
+	disturb.Install(ctx)
 	sp.Thorough = ctx.Thorough()
 	if ctx.ReplayPath != "" {
 		if cp.Replay(ctx, ctx.LoadReplay(), "smf-write", cc.SMFWrite()) {
